@@ -322,6 +322,23 @@ class C16:
                         return
                 index_term = it if it[0] == "call" else ("call", ("builtin", "tuple"), (it,), ()) if g[1] == "list" else it
         else:
+            # positional pairing of two sequences derived from the query, one of them re-ordered on its own
+            for L in s.loops.values():
+                it = L.iter
+                if it[0] == "call" and it[1] == ("builtin", "zip") and len(it[2]) == 2 and q is not None:
+                    def from_q(t):
+                        return any(x == q for x in walk(t))
+                    def reordered(t):
+                        return t[0] == "call" and t[1] in (("builtin", "sorted"), ("builtin", "reversed")) and from_q(t)
+                    a_, b_ = it[2]
+                    if from_q(a_) and from_q(b_) and reordered(a_) != reordered(b_):
+                        srt = a_ if reordered(a_) else b_
+                        ctx.bad("R16.3", file, "set_value_at_pos", f"zip({show(a_)[:40]}, {show(b_)[:40]})",
+                                f"`{show(srt)[:70]}` is re-ordered on its own and then paired position by position with `{show(b_ if srt is a_ else a_)[:50]}`, "
+                                f"which keeps the order of the keyword arguments: unless the keywords happen to be given in axis order, each "
+                                f"position is looked up on, and written along, another dimension's axis", getattr(L.node, "lineno", s.node.lineno),
+                                witness={"call": "set_value_at_pos(a, v, y=3.25, x=0.5) on dims (x, y)"})
+                        return
             ctx.undec("R16.3", site, "loop over the query items not found")
             return
         if ok_idx and init_ok:
